@@ -151,7 +151,12 @@ pub const XC_COMPOSE: [(&str, &str); 11] = [
 ];
 /// Besides accents and ligatures: rules whose keys are plain ASCII letters ("w" -> "v", "x" -> "ks": all-ASCII titles
 /// need normalising too) and a rule on a separator (ellipsis -> three dots).
-pub const XR_REDUCE: [(&str, &str); 11] = [
+pub const XR_REDUCE: [(&str, &str); 15] = [
+    // a letter listed in both spellings, precomposed and as base letter + combining mark (a two-character key)
+    ("å", "aa"),
+    ("Å", "AA"),
+    ("a\u{30a}", "aa"),
+    ("A\u{30a}", "AA"),
     ("ß", "ss"),
     ("ẞ", "SS"),
     ("é", "e"),
